@@ -56,7 +56,7 @@ def histories(rng, tier, n=None):
         classc = r.below(2)
         start = r.choice([0, 0, 3, 0xFFFE, 0xFFFF, 0xFFFFFFFD, 0xFFFFFFFE, 0xFFFFFFFF])
         lead = r.choice([15, 15, 0, 100, 999, 1001, 6000])
-        fault = r.choice(["-", "-"] + [str(x) for x in range(0, 40)])
+        fault = r.choice(["-", "-"] + [str(x) for x in range(0, 40)] + ["%dx%d" % (r.below(30), r.choice([2, 2, 3, 40])) for _ in range(12)])
         bias = r.choice(["-", "-", "2:3"]) if region in (4, 8) else "-"
         head = "adev r=%d lead=%d classc=%d fault=%s bias=%s" % (region, lead, classc, fault, bias)
         ops = []
